@@ -38,7 +38,7 @@ type c08Witness struct {
 func init() {
 	core.Register(&core.Check{
 		ID:   "C08",
-		Rule: "part A (status selection): every non-empty subset of the response keys {1XX,200,201,2XX,4XX,default}, each entry accepting only its own index as JSON body, x 18 statuses x methods GET/HEAD x every index body x IncludeResponseStatus on/off: the accepted index identifies the selected entry (exact, then class, then default); unchecked statuses 301/304/307/308 and HEAD; part B (headers): a declared response header of primitive/array/object type, required or not, x present-valid / present-violating / unparsable / absent x MultiError; part C (content): declared vs undeclared content types, entries without schema, bodies valid / violating / syntactically broken (short and long) / with trailing bytes / of a type without decoder, readOnly/writeOnly/required object schemas x ExcludeWriteOnlyValidations / ExcludeResponseBody; after every call the response body must still be readable and byte-identical. Distinct = full case tuple; non-trivial = at least one entry is declared (always).",
+		Rule: "part A (status selection): every non-empty subset of the response keys {1XX,200,201,2XX,4XX,default}, each entry accepting only its own index as JSON body, x 18 statuses x methods GET/HEAD x every index body x IncludeResponseStatus on/off: the accepted index identifies the selected entry (exact, then class, then default); unchecked statuses 301/304/307/308 and HEAD; part B (headers): a declared response header of primitive/array/object type, required or not, x present-valid / present-violating / unparsable / absent x MultiError; header names declared in 5 spellings (canonical, lower, mixed) by schema and by content; part C (content): declared vs undeclared content types, entries without schema, bodies valid / violating / syntactically broken (short and long) / with trailing bytes / of a type without decoder, readOnly/writeOnly/required object schemas x ExcludeWriteOnlyValidations / ExcludeResponseBody; after every call the response body must still be readable and byte-identical. Distinct = full case tuple; non-trivial = at least one entry is declared (always).",
 		Assumptions: []string{
 			"reference: exact status, then status class, then default; no entry passes unless IncludeResponseStatus; as-response reading: writeOnly forbidden and not required, readOnly allowed",
 			"trailing bytes after the first JSON value carry no verdict (decoder convention), only the readability assertion",
@@ -311,37 +311,60 @@ func c08Headers(c *core.Ctx, hi int) {
 	}
 }
 
-// c08HeaderByContent: a response header defined by "content" instead of "schema" (legal OAS); only crash-freedom
-// and body readability are asserted, the verdict is not (the library does not decode such headers).
+// c08HeaderByContent: a response header defined by "content" instead of "schema" (legal OAS), and header names in every
+// spelling (header names are case-insensitive; net/http stores them canonically). The library does not decode
+// content-defined headers, so only presence is judged for them: required and absent is rejected, absent and optional or
+// present with a valid value is accepted; a present value that violates the content schema carries no verdict.
 func c08HeaderByContent(c *core.Ctx) {
-	for _, required := range []bool{false, true} {
-		h := gen.S{"content": gen.S{"application/json": gen.S{"schema": gen.S{"type": "integer"}}}}
-		if required {
-			h["required"] = true
-		}
-		d, err := loadDoc(c08DocFor(gen.S{"200": gen.S{"description": "d", "headers": gen.S{"X-R": h}}}))
-		if err != nil {
-			c.Note("header-by-content doc rejected: %v", err)
-			return
-		}
-		router, _ := newGorilla(d)
-		for _, val := range []string{"", "1", "x"} {
-			hdr := http.Header{}
-			if val != "" {
-				hdr.Set("X-R", val)
+	for _, name := range []string{"X-R", "x-r", "ETag", "x-RATE-limit", "X-Rate-Limit"} {
+		for _, byContent := range []bool{true, false} {
+			for _, required := range []bool{false, true} {
+				h := gen.S{"schema": gen.S{"type": "integer"}}
+				if byContent {
+					h = gen.S{"content": gen.S{"application/json": gen.S{"schema": gen.S{"type": "integer"}}}}
+				}
+				if required {
+					h["required"] = true
+				}
+				d, err := loadDoc(c08DocFor(gen.S{"200": gen.S{"description": "d", "headers": gen.S{name: h}}}))
+				if err != nil {
+					c.Note("header doc rejected: %v", err)
+					continue
+				}
+				router, _ := newGorilla(d)
+				for _, val := range []string{"", "1", "x"} {
+					hdr := http.Header{}
+					if val != "" {
+						hdr.Set(name, val)
+					}
+					desc := fmt.Sprintf("header name=%q by-content=%v required=%v value=%q", name, byContent, required, val)
+					c.Begin(desc)
+					c.Eval()
+					verr, after, rerr, pi := c08Run(router, "GET", 200, hdr, []byte("x"), &openapi3filter.Options{})
+					w := c08Witness{Part: "header-name-spelling", Status: 200, Method: "GET", Header: hdr, Body: "x", Options: fmt.Sprintf("declared as %q by-content=%v required=%v", name, byContent, required), Got: fmt.Sprint(verr)}
+					if pi != nil {
+						c.Violate(core.PanicFeatures(pi), w, desc+"\n"+pi.Value+"\n"+pi.Stack)
+						continue
+					}
+					c.Distinct(desc)
+					c.Cover("headers", map[bool]string{true: "by-content", false: "by-schema"}[byContent]+"/spelling")
+					switch {
+					case val == "x" && byContent:
+						c.Cover("headers", "by-content/violating value: no verdict")
+					default:
+						want := val == "1" || (val == "" && !required)
+						w.Want = fmt.Sprintf("accept=%v", want)
+						if (verr == nil) != want {
+							kind := "header_false_accept"
+							if want {
+								kind = "header_false_reject"
+							}
+							c.Violate(map[string]string{"kind": kind, "shape": "name-spelling", "by_content": fmt.Sprint(byContent), "required": fmt.Sprint(required), "canonical_name": fmt.Sprint(http.CanonicalHeaderKey(name) == name)}, w, desc+"\nlibrary: "+fmt.Sprint(verr))
+						}
+					}
+					c08Readable(c, w, []byte("x"), after, rerr)
+				}
 			}
-			desc := fmt.Sprintf("header-by-content required=%v value=%q", required, val)
-			c.Begin(desc)
-			c.Eval()
-			verr, after, rerr, pi := c08Run(router, "GET", 200, hdr, []byte("x"), &openapi3filter.Options{})
-			w := c08Witness{Part: "header-by-content", Status: 200, Method: "GET", Header: hdr, Body: "x", Got: fmt.Sprint(verr)}
-			if pi != nil {
-				c.Violate(core.PanicFeatures(pi), w, desc+"\n"+pi.Value+"\n"+pi.Stack)
-				continue
-			}
-			c.Distinct(desc)
-			c.Cover("headers", "by-content")
-			c08Readable(c, w, []byte("x"), after, rerr)
 		}
 	}
 }
